@@ -19,6 +19,11 @@ type Spec struct {
 	Scenario string     `json:"scenario"`
 	Tier     string     `json:"tier,omitempty"`
 	Attempts [][]br.Dev `json:"attempts"`
+	// Replaced: after the attempts the SCHEDULER replaces the (still unbound) pod's BindRequest by a
+	// new one that selects other GPU groups - what it does with a failed or stale request - and the
+	// fault-free recovery then works on the new request. If the last attempt crashed the swap happens
+	// while the binder is down (no delete event), otherwise the real BindRequest delete handler runs.
+	Replaced bool `json:"replaced,omitempty"`
 }
 
 func (s Spec) String() string {
@@ -30,7 +35,11 @@ func (s Spec) String() string {
 		}
 		parts = append(parts, "["+strings.Join(ds, ",")+"]")
 	}
-	return s.Scenario + " " + strings.Join(parts, "->")
+	r := ""
+	if s.Replaced {
+		r = " ->request-replaced"
+	}
+	return s.Scenario + " " + strings.Join(parts, "->") + r
 }
 
 // AttemptObs is what was observed around one attempt.
@@ -54,6 +63,8 @@ type Outcome struct {
 	Final     []string
 	Recovery  br.Recovery
 	TotalCall int
+	// ReplaceSkipped: Spec.Replaced was asked for but the pod was already bound.
+	ReplaceSkipped bool
 }
 
 func scenarioByName(tier, name string) *br.Scenario {
@@ -119,6 +130,24 @@ func Execute(sc *br.Scenario, spec Spec) (*Outcome, error) {
 			out.Findings = append(out.Findings, fd)
 		}
 		crashedBefore = res.Crashed
+	}
+	if spec.Replaced {
+		pod := w.GetPod(target)
+		if pod == nil || pod.Spec.NodeName != "" || w.GetBR(target) == nil {
+			out.ReplaceSkipped = true // bound already (or request gone): the scheduler has nothing to replace
+		} else {
+			nsc := *sc
+			nsc.Target.Groups = nil
+			for _, g := range sc.Target.Groups {
+				nsc.Target.Groups = append(nsc.Target.Groups, g+"r")
+			}
+			old := w.EnvDeleteBR(target)
+			if !crashedBefore {
+				p.BRDeleted(old)
+			}
+			w.EnvCreate(nsc.NewBR(&nsc.Target))
+			sc = &nsc
+		}
 	}
 	out.Recovery = br.Recover(w, p, crashedBefore)
 	final := w.Snap()
